@@ -897,11 +897,9 @@ def m_option_ok_or(ev, st, args, depth, t):
 
 
 def m_option_take(ev, st, args, depth, t):
-    r = strip(args[0])
-    if not (isinstance(r, tuple) and r[0] == "ref"):
-        raise Stuck("Option::take on a non-place")
-    old = ev._read(st, r[1], tuple(r[2]))
-    ev._write(st, r[1], tuple(r[2]), _opt("None"))
+    root, projs = _place_of(args[0])
+    old = ev._read(st, root, projs)
+    ev._write(st, root, projs, _opt("None"))
     yield ("ret", st, old)
 
 
@@ -1063,12 +1061,20 @@ def m_nonzero_get(ev, st, args, depth, t):
         yield ("ret", st, ("opq", ev.fresh(), ("nzget", v)))
 
 
+def _place_of(v):
+    """(root, projs) of the place a pointer value designates: a reference to a known place, or the cell of a symbolic pointer."""
+    r = strip(v)
+    if isinstance(r, tuple) and r and r[0] == "ref":
+        return r[1], tuple(r[2])
+    if isinstance(r, tuple) and r:
+        return ("ext", r), ()
+    raise Stuck("not a place")
+
+
 def m_mem_replace(ev, st, args, depth, t):
-    r = strip(args[0])
-    if not (isinstance(r, tuple) and r[0] == "ref"):
-        raise Stuck("mem::replace on a non-place")
-    old = ev._read(st, r[1], tuple(r[2]))
-    ev._write(st, r[1], tuple(r[2]), args[1])
+    root, projs = _place_of(args[0])
+    old = ev._read(st, root, projs)
+    ev._write(st, root, projs, args[1])
     yield ("ret", st, old)
 
 
